@@ -11,7 +11,7 @@ import (
 )
 
 var repo = flag.String("repo", "/repo", "repository root")
-var allExtractors = []string{"wire", "classify", "sites", "boxconsts", "adapter", "blocking", "net", "ps", "locks", "stmts"}
+var allExtractors = []string{"wire", "wiredisc", "classify", "sites", "boxconsts", "adapter", "blocking", "net", "ps", "locks", "stmts"}
 
 var outDir = flag.String("out", "/verif/lean/TSSVerif/Gen", "output directory for generated Lean files")
 
@@ -29,6 +29,8 @@ func main() {
 		switch w {
 		case "wire":
 			name, body = "Wire", genWire()
+		case "wiredisc":
+			name, body = "WireDisc", genWireDisc()
 		case "classify":
 			name, body = "Classify", genClassify()
 		case "sites":
